@@ -99,6 +99,46 @@ func runC04(c *Ctx) {
 		}
 		c04Msg(c, "random", m, "")
 	}
+	// compressed names are accepted on input in every name field of every type: records whose embedded names (also the
+	// ones no packer would compress: HIP rendezvous servers, gateway hosts, SRV / RRSIG / NSEC names …) are written as
+	// a label and a pointer, or a bare pointer, to the question name
+	{
+		t := loadSpec()
+		q := append(wireOf([][]byte{[]byte("p"), []byte("example")}), 0, 1, 0, 1) // p.example. A IN at offset 12
+		for k := 0; k < c.Scale(6, 60); k++ {
+			for _, typ := range t.wireTypes() {
+				style := r.Intn(3)
+				nameEnc = func(ls [][]byte) []byte {
+					switch style {
+					case 0:
+						return []byte{0xC0, 12} // the whole question name
+					case 1:
+						return []byte{1, 'x', 0xC0, 14} // x.example.
+					}
+					return []byte{2, 'y', 'z', 1, 'w', 0xC0, 12} // yz.w.p.example.
+				}
+				g := genRR(r, typ, 0, r.Bool())
+				nameEnc = nil
+				rrw := append([]byte{0xC0, 14}, g.Wire[len(wireOf(g.Owner)):]...) // owner: pointer to example.
+				wire := append(buildMsgWire(uint16(r.U64()), 0x8000, nil, nil, nil, nil), q...)
+				wire[5] = 1
+				wire[7] = 1
+				wire = append(wire, rrw...)
+				out := guard(func() string {
+					var m dns.Msg
+					if err := m.Unpack(wire); err != nil {
+						return "error: " + err.Error()
+					}
+					if len(m.Answer) != 1 {
+						return "no answer decoded"
+					}
+					return "ok"
+				})
+				c.Pred("pointers-in-every-field", "compressed-input-accepted", fmt.Sprintf("type=%d msg=%s", typ, hx(wire)), out == "ok", out, "ok", true)
+				msgUnpackCorr(c, "pointers-in-every-field", wire)
+			}
+		}
+	}
 	// messages that cross the 16384-octet pointer limit: padding TXT records, then shared names
 	nb := c.Scale(30, 600)
 	for i := 0; i < nb; i++ {
